@@ -19,7 +19,9 @@ def scenarios(tier, wd):
     fB = fc.formatted_of(fc.SRC_CHANGED, fc.CFG_B, wd)
     contents = [("changed", fc.SRC_CHANGED, fA, fc.CFG_A), ("already-formatted", fA, fc.formatted_of(fA, fc.CFG_A, wd), fc.CFG_A),
                 ("format-fails", fc.SRC_FAIL, None, fc.CFG_A), ("empty", b"", fc.formatted_of(b"", fc.CFG_A, wd), fc.CFG_A),
-                ("changed-cfgB", fc.SRC_CHANGED, fB, fc.CFG_B)]
+                ("changed-cfgB", fc.SRC_CHANGED, fB, fc.CFG_B),
+                # formatted text of the SAME length as the original: file_content_matches() has to compare the bytes
+                ("same-length", fc.SRC_SAMELEN, fc.formatted_of(fc.SRC_SAMELEN, fc.CFG_SAMELEN, wd), fc.CFG_SAMELEN)]
     for style in INPLACE:
         for name, o, f, cfg in contents:
             for md5 in ["none", "match", "stale"]:
